@@ -204,6 +204,16 @@ def run(ctx, labels=None):
                "the largest-weight scan of %s takes a value without abs() or in an unrecognised "
                "form (%s): a negative weight of largest magnitude is ignored and costs overflow "
                "16 bits" % (p.split("::")[-1], bad))
+    for p_, sr in sorted(srcs_by_fn.items()):
+        # every weight that is written as a cost takes part in the maximum: the word weights
+        # (feature_sets[..].weight) and the connection weights (matrix[..] values)
+        need = {"feature_sets.weight", "matrix.values"}
+        okc = need <= set(sr)
+        ctx.ob("SCALE", "%s|max-covers-every-written-weight" % p_.split("::")[-1], okc, fn_loc(crate, p_),
+               "the largest-weight scan of %s covers the word weights and the connection weights"
+               % p_.split("::")[-1] if okc else
+               "the largest-weight scan of %s covers only %s: a larger weight of the other kind is "
+               "scaled beyond 32767 and its cost no longer fits 16 bits" % (p_.split("::")[-1], sr))
     if len(srcs_by_fn) == 2:
         vals = list(srcs_by_fn.values())
         same = vals[0] == vals[1] and len(vals[0]) == 2
